@@ -1914,23 +1914,41 @@ fn format_table_field_key_ir(
 
     match key {
         LuaIndexKey::Name(name) => vec![ir::source_token(name.syntax().clone())],
-        LuaIndexKey::String(string) => vec![
-            ir::syntax_token(LuaTokenKind::TkLeftBracket),
-            ir::source_token(string.syntax().clone()),
-            ir::syntax_token(LuaTokenKind::TkRightBracket),
-        ],
-        LuaIndexKey::Integer(number) => vec![
-            ir::syntax_token(LuaTokenKind::TkLeftBracket),
-            ir::source_token(number.syntax().clone()),
-            ir::syntax_token(LuaTokenKind::TkRightBracket),
-        ],
-        LuaIndexKey::Expr(expr) => vec![
-            ir::syntax_token(LuaTokenKind::TkLeftBracket),
-            ir::list(format_expr(ctx, plan, &expr)),
-            ir::syntax_token(LuaTokenKind::TkRightBracket),
-        ],
+        LuaIndexKey::String(string) => bracketed_key_ir(
+            vec![ir::source_token(string.syntax().clone())],
+            starts_with_long_bracket(string.syntax().text()),
+        ),
+        LuaIndexKey::Integer(number) => {
+            bracketed_key_ir(vec![ir::source_token(number.syntax().clone())], false)
+        }
+        LuaIndexKey::Expr(expr) => {
+            let pad = expr
+                .syntax()
+                .first_token()
+                .is_some_and(|token| starts_with_long_bracket(token.text()));
+            bracketed_key_ir(vec![ir::list(format_expr(ctx, plan, &expr))], pad)
+        }
         LuaIndexKey::Idx(_) => Vec::new(),
     }
+}
+
+/// A key that begins with a long bracket (`[[...]]`, `[=[...]=]`) must not touch the opening `[`:
+/// `[[[k]]]` would be read as a long string starting one character early.
+fn starts_with_long_bracket(text: &str) -> bool {
+    text.starts_with('[')
+}
+
+fn bracketed_key_ir(key: Vec<DocIR>, pad: bool) -> Vec<DocIR> {
+    let mut docs = vec![ir::syntax_token(LuaTokenKind::TkLeftBracket)];
+    if pad {
+        docs.push(ir::space());
+    }
+    docs.extend(key);
+    if pad {
+        docs.push(ir::space());
+    }
+    docs.push(ir::syntax_token(LuaTokenKind::TkRightBracket));
+    docs
 }
 
 fn format_table_field_value_ir(
@@ -3437,7 +3455,16 @@ fn format_index_access_ir(
                 docs.push(ir::syntax_token(LuaTokenKind::TkSafeNavigation));
             }
             docs.push(ir::syntax_token(LuaTokenKind::TkLeftBracket));
-            if ctx.config.spacing.space_inside_brackets {
+            let pad_key = ctx.config.spacing.space_inside_brackets
+                || match expr.get_index_key() {
+                    Some(LuaIndexKey::Expr(key)) => key
+                        .syntax()
+                        .first_token()
+                        .is_some_and(|token| starts_with_long_bracket(token.text())),
+                    Some(LuaIndexKey::String(key)) => starts_with_long_bracket(key.syntax().text()),
+                    _ => false,
+                };
+            if pad_key {
                 docs.push(ir::space());
             }
             if let Some(key) = expr.get_index_key() {
@@ -3455,7 +3482,7 @@ fn format_index_access_ir(
                     LuaIndexKey::Idx(_) => {}
                 }
             }
-            if ctx.config.spacing.space_inside_brackets {
+            if pad_key {
                 docs.push(ir::space());
             }
             docs.push(ir::syntax_token(LuaTokenKind::TkRightBracket));
